@@ -165,6 +165,9 @@ reg('PageRankClassifier', ['sq', 'bip'], _est(C.PageRankClassifier, 'labels', CL
 reg('Propagation', ['sq', 'bip'], _est(C.Propagation, 'labels', CLASSIF, dict(n_iter=10)), seeds='labels',
     cls=C.Propagation, equiv=False)
 reg('NNClassifier', ['sq', 'bip'], _est(C.NNClassifier, 'labels', CLASSIF), seeds='labels', cls=C.NNClassifier, equiv=False)
+# non-default weighted=False: the branch that ignores the edge weights (seed C01_6 rewrote the caller's weights there)
+reg('Propagation[unweighted]', ['sq', 'bip'], _est(C.Propagation, 'labels', CLASSIF, dict(n_iter=10, weighted=False)), seeds='labels',
+    cls=C.Propagation, equiv=False)
 # ---- clustering
 for mod in ['dugue', 'newman', 'potts']:
     reg('Louvain[%s]' % mod, ['sq', 'bip'], _est(K.Louvain, None, CLUST, dict(modularity=mod)), cls=K.Louvain, equiv=False,
@@ -172,6 +175,8 @@ for mod in ['dugue', 'newman', 'potts']:
     reg('Leiden[%s]' % mod, ['sq', 'bip'], _est(K.Leiden, None, CLUST, dict(modularity=mod)), cls=K.Leiden, equiv=False,
         seeded='random_state', deterministic=False)
 reg('PropagationClustering', ['sq', 'bip'], _est(K.PropagationClustering, None, CLUST), cls=K.PropagationClustering, equiv=False)
+reg('PropagationClustering[unweighted]', ['sq', 'bip'], _est(K.PropagationClustering, None, CLUST, dict(weighted=False)),
+    cls=K.PropagationClustering, equiv=False)
 reg('KCenters', ['sq', 'bip'], _est(K.KCenters, None, CLUST, dict(n_clusters=2)), cls=K.KCenters, equiv=False, deterministic=False)
 # ---- hierarchy
 reg('Paris', ['sym', 'bip'], _est(H.Paris, None, DENDRO), cls=H.Paris, equiv=False)
